@@ -412,6 +412,7 @@ def r14_3(ctx):
                 memo.append(f"{fi.qual}:{fi.node.lineno} @{t}")
     lazy_state_checks(ctx)
     registry_commit_point(ctx)
+    no_function_level_caches(ctx)
     ctx.check("no mutable default argument (one object shared by all calls)", not mut_defaults, "none", "; ".join(mut_defaults[:3]) or "none", "rzilcompiler/")
     ctx.check("no memoising decorator (results of earlier calls handed out again)", not memo, "none", "; ".join(memo[:3]) or "none", "rzilcompiler/")
     # compile_insn must (re)compile, not return a cached result
@@ -450,6 +451,27 @@ def lazy_state_checks(ctx):
                     if lazy:
                         bad.append(f"{fi.qual}:{node.lineno} {U(node)[:70]}")
     ctx.check("no attribute holds a one-shot iterator", not bad and n >= 100, "attributes are bound to re-iterable values (list / dict / set / tuple ...)", "; ".join(bad[:3]) or f"{n} attribute bindings inspected", "rzilcompiler/")
+
+
+def no_function_level_caches(ctx):
+    """no function keeps a result for later calls in a class attribute (written through the class name / cls) or a module global: what a
+    call returns depends on its arguments and the current environment only (a memoised repository root, a cached table ... make the
+    second use in one process depend on the first)"""
+    idx = get_index(ctx.env)
+    bad = []
+    n = 0
+    for fi in idx.funcs.values():
+        if ".Tests" in fi.module:
+            continue
+        n += 1
+        for node in ast.walk(fi.node):
+            if isinstance(node, ast.Global):
+                bad.append(f"{fi.qual}:{node.lineno} global {', '.join(node.names)}")
+            tgts = node.targets if isinstance(node, ast.Assign) else [node.target] if isinstance(node, (ast.AugAssign, ast.AnnAssign)) else []
+            for t in tgts:
+                if isinstance(t, ast.Attribute) and isinstance(t.value, ast.Name) and (t.value.id in idx.classes or t.value.id == "cls"):
+                    bad.append(f"{fi.qual}:{node.lineno} {U(node)[:60]}")
+    ctx.check("no function stores into a class attribute or a module global", not bad and n >= 200, "none", "; ".join(bad[:3]) or f"{n} functions inspected", "rzilcompiler/")
 
 
 def registry_commit_point(ctx):
